@@ -32,6 +32,9 @@ Record st := mkSt {
   s_out : list ev       (* events that happened, newest first *)
 }.
 
+Definition is_stmt (e : ev) : bool := match e with EOp DStmt _ => true | _ => false end.
+Definition nstmts (b : pipeline) : nat := length (filter is_stmt b).
+
 Definition init_st (db : list nat) : st := mkSt [] false false 0 0 0 [] db 0 0%Z [].
 
 Section Run.
@@ -72,7 +75,7 @@ Definition step (s : st) (e : ev) : st :=
 
 (* one pipeline: BeginTransaction; the body; CommitOrRollbackTransaction *)
 Definition run_pipe (s : st) (body : pipeline) : st :=
-  let nstm := length (filter (fun e => match e with EOp DStmt _ => true | _ => false end) body) in
+  let nstm := nstmts body in
   if s_stop s then   (* the operation already returned; the statements keep their identity *)
     mkSt (s_err s) (s_live s) true (s_nops s) (s_nhooks s) (s_sid s + nstm) (s_work s) (s_db s) (s_commits s) (s_open s) (s_out s)
   else
